@@ -33,6 +33,9 @@ func finish(spec *Spec, tier string, seed int, obs []*Obligation, results map[st
 			}
 			n++
 			rc := &ReplayCase{ID: fmt.Sprintf("c%d", n), Prop: spec.Property, Ob: o.Name, Pkg: o.Pkg, Entry: o.Entry, Kind: v.Kind, Msg: v.Msg, Site: v.Site, Vals: v.Nondets, Notes: v.Notes, Quick: tier != "thorough", Seed: uint64(seed)}
+			if o.Threads && v.Kind == "deadlock" {
+				rc.Repeat = 5000 // a reproduced deadlock blocks the replay until the test times out
+			}
 			if o.Threads && v.Kind != "race" && v.Kind != "deadlock" {
 				rc.Repeat = 30000 // the interleaving cannot be forced natively: stress it
 			}
